@@ -280,4 +280,720 @@ theorem ssse3Ifftb_spec (mulf : Sym → Sym) (x y : Block) :
       (blockXor x (specMulBlock (mulNibble mulf) (blockXor y x)), blockXor y x) := by
   rw [ssse3Ifftb_eq, ssse3MulAdd_spec]
 
+/-! ### Neon: the same kernel with `vqtbl1q_u8` / `vshrq_n_u8` -/
+
+/-- `vshrq_n_u8(a, 4)` (per-byte shift) = `(a >>64 4) & 0x0f` (64-bit lane shift, then mask) -/
+theorem vshrq4_eq (a : V128) : vshrq4 a = v128and (v128srli64 a 4) (v128set1 0x0f#8) := by
+  apply Vector.ext
+  intro i hi
+  have h := srli4_and a ⟨i, hi⟩
+  simp only [Fin.getElem_fin] at h
+  rw [h]
+  simp only [vshrq4, Vector.getElem_map]
+
+theorem and_clr_lt (a : V128) (i : Fin 16) : ((v128and a (v128set1 0x0f#8))[i]).toNat < 16 := by
+  rw [and_clr, and_0f_toNat]; omega
+
+theorem srli4_and_lt (a : V128) (i : Fin 16) :
+    ((v128and (v128srli64 a 4) (v128set1 0x0f#8))[i]).toNat < 16 := by
+  rw [srli4_and, ushr4_toNat]
+  have := a[i].isLt
+  omega
+
+/-- `vqtbl1q_u8` and `pshufb` agree on index vectors whose bytes are all `< 16` -/
+theorem vqtbl1q_eq_shuffle (t idx : V128) (h : ∀ i : Fin 16, (idx[i]).toNat < 16) :
+    vqtbl1q t idx = v128shuffle t idx := by
+  apply Vector.ext
+  intro i hi
+  have h1 := shuffle_nibble' t idx ⟨i, hi⟩ (h ⟨i, hi⟩)
+  have h2 := h ⟨i, hi⟩
+  simp only [Fin.getElem_fin] at h1 h2
+  rw [h1]
+  simp only [vqtbl1q, Vector.getElem_ofFn, Fin.getElem_fin, h2, if_true]
+
+/-- `Neon::mul_128` returns the same two vectors as `Ssse3::mul_128` -/
+theorem neonMul128_eq (mulf : Sym → Sym) (valueLo valueHi : V128) :
+    neonMul128 mulf valueLo valueHi = mul128 mulf valueLo valueHi := by
+  unfold neonMul128 mul128
+  simp only [vshrq4_eq, vqtbl1q_eq_shuffle _ _ (and_clr_lt _)]
+
+theorem neonMuladd128_eq (mulf : Sym → Sym) (xLo xHi yLo yHi : V128) :
+    neonMuladd128 mulf xLo xHi yLo yHi = muladd128 mulf xLo xHi yLo yHi := by
+  unfold neonMuladd128 muladd128
+  rw [neonMul128_eq]
+
+theorem neonMulBlock_eq_ssse3 (mulf : Sym → Sym) (b : Block) :
+    neonMulBlock mulf b = ssse3MulBlock mulf b := by
+  unfold neonMulBlock ssse3MulBlock
+  simp only [neonMul128_eq]
+
+theorem neonMulAdd_eq_ssse3 (mulf : Sym → Sym) (x y : Block) :
+    neonMulAdd mulf x y = ssse3MulAdd mulf x y := by
+  unfold neonMulAdd ssse3MulAdd
+  simp only [neonMuladd128_eq]
+
+theorem neonFftb_eq_ssse3 (mulf : Sym → Sym) (x y : Block) :
+    neonFftb mulf x y = ssse3Fftb mulf x y := by
+  unfold neonFftb ssse3Fftb
+  simp only [neonMuladd128_eq]
+
+theorem neonIfftb_eq_ssse3 (mulf : Sym → Sym) (x y : Block) :
+    neonIfftb mulf x y = ssse3Ifftb mulf x y := by
+  unfold neonIfftb ssse3Ifftb
+  simp only [neonMuladd128_eq]
+
+/-- T1 (Neon) -/
+theorem neonMulBlock_spec (mulf : Sym → Sym) (b : Block) :
+    neonMulBlock mulf b = specMulBlock (mulNibble mulf) b := by
+  rw [neonMulBlock_eq_ssse3, ssse3MulBlock_spec]
+
+theorem neonMulAdd_spec (mulf : Sym → Sym) (x y : Block) :
+    neonMulAdd mulf x y = blockXor x (specMulBlock (mulNibble mulf) y) := by
+  rw [neonMulAdd_eq_ssse3, ssse3MulAdd_spec]
+
+/-- T4 (Neon, fft) -/
+theorem neonFftb_spec (mulf : Sym → Sym) (x y : Block) :
+    neonFftb mulf x y =
+      (blockXor x (specMulBlock (mulNibble mulf) y),
+       blockXor y (blockXor x (specMulBlock (mulNibble mulf) y))) := by
+  rw [neonFftb_eq_ssse3, ssse3Fftb_spec]
+
+/-- T4 (Neon, ifft) -/
+theorem neonIfftb_spec (mulf : Sym → Sym) (x y : Block) :
+    neonIfftb mulf x y =
+      (blockXor x (specMulBlock (mulNibble mulf) (blockXor y x)), blockXor y x) := by
+  rw [neonIfftb_eq_ssse3, ssse3Ifftb_spec]
+
+/-! ### Avx2: every 256-bit intrinsic acts on the two 128-bit lanes separately -/
+
+/-- the 128-bit lane `h` (0 or 1) of a 256-bit vector -/
+def v256half (a : V256) (h : Nat) : V128 :=
+  Vector.ofFn fun i => a.toArray.getD (16 * h + i.val) 0#8
+
+theorem v256half_getD (a : V256) (h j : Nat) (hj : j < 16) :
+    (v256half a h).toArray.getD j 0#8 = a.toArray.getD (16 * h + j) 0#8 := by
+  unfold v256half
+  rw [vget_ofFn _ _ hj]
+
+theorem v128and_getD (a b : V128) (j : Nat) (hj : j < 16) :
+    (v128and a b).toArray.getD j 0#8 = a.toArray.getD j 0#8 &&& b.toArray.getD j 0#8 := by
+  unfold v128and
+  rw [vget_zipWith _ _ _ _ hj]
+
+theorem v256half_and (a b : V256) (h : Nat) (hh : h < 2) :
+    v256half (v256and a b) h = v128and (v256half a h) (v256half b h) := by
+  apply vext
+  intro j hj
+  rw [v128and_getD _ _ _ hj, v256half_getD _ _ _ hj, v256half_getD _ _ _ hj, v256half_getD _ _ _ hj]
+  unfold v256and
+  rw [vget_zipWith _ _ _ _ (by omega)]
+
+theorem v256half_xor (a b : V256) (h : Nat) (hh : h < 2) :
+    v256half (v256xor a b) h = v128xor (v256half a h) (v256half b h) := by
+  apply vext
+  intro j hj
+  rw [v128xor_getD _ _ _ hj, v256half_getD _ _ _ hj, v256half_getD _ _ _ hj, v256half_getD _ _ _ hj]
+  unfold v256xor
+  rw [vget_zipWith _ _ _ _ (by omega)]
+
+theorem v256half_set1 (x : Byte) (h : Nat) (hh : h < 2) :
+    v256half (v256set1 x) h = v128set1 x := by
+  apply vext
+  intro j hj
+  rw [v256half_getD _ _ _ hj]
+  unfold v256set1 v128set1
+  rw [vget_replicate _ _ (by omega), vget_replicate _ _ hj]
+
+theorem lane64w_eq (a : V256) (h : Nat) :
+    lane64w a h =
+      (a.toArray.getD (8 * h + 0) 0#8).toNat * 256 ^ 0 + (a.toArray.getD (8 * h + 1) 0#8).toNat * 256 ^ 1 +
+      (a.toArray.getD (8 * h + 2) 0#8).toNat * 256 ^ 2 + (a.toArray.getD (8 * h + 3) 0#8).toNat * 256 ^ 3 +
+      (a.toArray.getD (8 * h + 4) 0#8).toNat * 256 ^ 4 + (a.toArray.getD (8 * h + 5) 0#8).toNat * 256 ^ 5 +
+      (a.toArray.getD (8 * h + 6) 0#8).toNat * 256 ^ 6 + (a.toArray.getD (8 * h + 7) 0#8).toNat * 256 ^ 7 :=
+  foldl_range8 (fun i => (a.toArray.getD (8 * h + i) 0#8).toNat * 256 ^ i)
+
+/-- the 64-bit lane `l` of the 128-bit lane `h` is the 64-bit lane `2h + l` -/
+theorem lane64_half (a : V256) (h l : Nat) (hl : l < 2) :
+    lane64 (v256half a h) l = lane64w a (2 * h + l) := by
+  have e : ∀ i, i < 8 →
+      (v256half a h).toArray.getD (8 * l + i) 0#8 = a.toArray.getD (8 * (2 * h + l) + i) 0#8 := by
+    intro i hi
+    rw [v256half_getD _ _ _ (by omega)]
+    congr 1
+    omega
+  rw [lane64_eq, lane64w_eq, e 0 (by omega), e 1 (by omega), e 2 (by omega), e 3 (by omega),
+    e 4 (by omega), e 5 (by omega), e 6 (by omega), e 7 (by omega)]
+
+/-- `_mm256_srli_epi64` shifts the two 128-bit lanes as `_mm_srli_epi64` does -/
+theorem v256half_srli64 (a : V256) (n h : Nat) (hh : h < 2) :
+    v256half (v256srli64 a n) h = v128srli64 (v256half a h) n := by
+  apply vext
+  intro j hj
+  rw [v256half_getD _ _ _ hj]
+  unfold v256srli64 v128srli64
+  rw [vget_ofFn _ _ (by omega), vget_ofFn _ _ hj]
+  simp only []
+  rw [lane64_half _ _ _ (by omega)]
+  have e1 : (16 * h + j) / 8 = 2 * h + j / 8 := by omega
+  have e2 : (16 * h + j) % 8 = j % 8 := by omega
+  rw [e1, e2]
+
+/-- `_mm256_shuffle_epi8` with a broadcast table: each 128-bit lane is `pshufb` with that table -/
+theorem v256half_shuffle_broadcast (t : V128) (idx : V256) (h : Nat) (hh : h < 2) :
+    v256half (v256shuffle (v256broadcast t) idx) h = v128shuffle t (v256half idx h) := by
+  apply vext
+  intro j hj
+  have hlt : 16 * h + j < 32 := by omega
+  rw [v256half_getD _ _ _ hj]
+  unfold v256shuffle v128shuffle
+  rw [vget_ofFn _ _ hlt, vget_ofFn _ _ hj]
+  simp only [Fin.getElem_fin]
+  rw [← vget idx _ hlt, ← vget (v256half idx h) j hj, v256half_getD _ _ _ hj]
+  have hb : ∀ k, k < 16 →
+      (v256broadcast t).toArray.getD (16 * ((16 * h + j) / 16) + k) 0#8 = t.toArray.getD k 0#8 := by
+    intro k hk
+    unfold v256broadcast
+    rw [vget_ofFn _ _ (by omega)]
+    simp only []
+    congr 1
+    omega
+  rw [hb _ (Nat.mod_lt _ (by decide))]
+
+theorem v256half_lutLo (mulf : Sym → Sym) (k : Nat) (idx : V256) (h : Nat) (hh : h < 2) :
+    v256half (v256shuffle (lutLo256 mulf k) idx) h = v128shuffle (lutLo mulf k) (v256half idx h) :=
+  v256half_shuffle_broadcast _ _ _ hh
+
+theorem v256half_lutHi (mulf : Sym → Sym) (k : Nat) (idx : V256) (h : Nat) (hh : h < 2) :
+    v256half (v256shuffle (lutHi256 mulf k) idx) h = v128shuffle (lutHi mulf k) (v256half idx h) :=
+  v256half_shuffle_broadcast _ _ _ hh
+
+/-- `Avx2::mul_256` is `Ssse3::mul_128` on each of the two 128-bit lanes -/
+theorem v256half_mul256_fst (mulf : Sym → Sym) (lo hi : V256) (h : Nat) (hh : h < 2) :
+    v256half (mul256 mulf lo hi).1 h = (mul128 mulf (v256half lo h) (v256half hi h)).1 := by
+  unfold mul256 mul128
+  simp only [v256half_xor _ _ _ hh, v256half_lutLo _ _ _ _ hh, v256half_and _ _ _ hh,
+    v256half_srli64 _ _ _ hh, v256half_set1 _ _ hh]
+
+theorem v256half_mul256_snd (mulf : Sym → Sym) (lo hi : V256) (h : Nat) (hh : h < 2) :
+    v256half (mul256 mulf lo hi).2 h = (mul128 mulf (v256half lo h) (v256half hi h)).2 := by
+  unfold mul256 mul128
+  simp only [v256half_xor _ _ _ hh, v256half_lutHi _ _ _ _ hh, v256half_and _ _ _ hh,
+    v256half_srli64 _ _ _ hh, v256half_set1 _ _ hh]
+
+theorem v256half_muladd256_fst (mulf : Sym → Sym) (xLo xHi yLo yHi : V256) (h : Nat) (hh : h < 2) :
+    v256half (muladd256 mulf xLo xHi yLo yHi).1 h =
+      (muladd128 mulf (v256half xLo h) (v256half xHi h) (v256half yLo h) (v256half yHi h)).1 := by
+  unfold muladd256 muladd128
+  simp only [v256half_xor _ _ _ hh, v256half_mul256_fst _ _ _ _ hh]
+
+theorem v256half_muladd256_snd (mulf : Sym → Sym) (xLo xHi yLo yHi : V256) (h : Nat) (hh : h < 2) :
+    v256half (muladd256 mulf xLo xHi yLo yHi).2 h =
+      (muladd128 mulf (v256half xLo h) (v256half xHi h) (v256half yLo h) (v256half yHi h)).2 := by
+  unfold muladd256 muladd128
+  simp only [v256half_xor _ _ _ hh, v256half_mul256_snd _ _ _ _ hh]
+
+/-- a 32-byte load is two 16-byte loads -/
+theorem v256half_blockHalf (b : Block) (H h : Nat) (hh : h < 2) :
+    v256half (blockHalf b H) h = blockQuarter b (2 * H + h) := by
+  apply vext
+  intro j hj
+  rw [v256half_getD _ _ _ hj, blockQuarter_getD _ _ _ hj]
+  unfold blockHalf
+  rw [vget_ofFn _ _ (by omega)]
+  simp only []
+  congr 1
+  omega
+
+/-- two 32-byte stores are four 16-byte stores -/
+theorem blockOfHalves_eq (lo hi : V256) :
+    blockOfHalves lo hi =
+      blockOfQuarters (v256half lo 0) (v256half lo 1) (v256half hi 0) (v256half hi 1) := by
+  have hget : ∀ j, j < 64 → (blockOfHalves lo hi).toArray.getD j 0#8 =
+      if j < 32 then lo.toArray.getD j 0#8 else hi.toArray.getD (j - 32) 0#8 := by
+    intro j hj
+    unfold blockOfHalves
+    rw [vget_ofFn _ _ hj]
+  apply vext
+  apply forall_lt64 <;> intro j hj
+  · rw [blockOfQuarters_getD0 _ _ _ _ _ hj, v256half_getD _ _ _ hj, hget _ (by omega),
+      if_pos (by omega)]
+    congr 1
+    omega
+  · rw [blockOfQuarters_getD1 _ _ _ _ _ hj, v256half_getD _ _ _ hj, hget _ (by omega),
+      if_pos (by omega)]
+    congr 1
+    omega
+  · rw [blockOfQuarters_getD2 _ _ _ _ _ hj, v256half_getD _ _ _ hj, hget _ (by omega),
+      if_neg (by omega)]
+    congr 1
+    omega
+  · rw [blockOfQuarters_getD3 _ _ _ _ _ hj, v256half_getD _ _ _ hj, hget _ (by omega),
+      if_neg (by omega)]
+    congr 1
+    omega
+
+theorem avx2MulBlock_eq_ssse3 (mulf : Sym → Sym) (b : Block) :
+    avx2MulBlock mulf b = ssse3MulBlock mulf b := by
+  unfold avx2MulBlock ssse3MulBlock
+  simp only [blockOfHalves_eq, v256half_mul256_fst _ _ _ _ (show 0 < 2 by omega),
+    v256half_mul256_fst _ _ _ _ (show 1 < 2 by omega), v256half_mul256_snd _ _ _ _ (show 0 < 2 by omega),
+    v256half_mul256_snd _ _ _ _ (show 1 < 2 by omega), v256half_blockHalf _ _ _ (show 0 < 2 by omega),
+    v256half_blockHalf _ _ _ (show 1 < 2 by omega)]
+
+theorem avx2MulAdd_eq_ssse3 (mulf : Sym → Sym) (x y : Block) :
+    avx2MulAdd mulf x y = ssse3MulAdd mulf x y := by
+  unfold avx2MulAdd ssse3MulAdd
+  simp only [blockOfHalves_eq, v256half_muladd256_fst _ _ _ _ _ _ (show 0 < 2 by omega),
+    v256half_muladd256_fst _ _ _ _ _ _ (show 1 < 2 by omega),
+    v256half_muladd256_snd _ _ _ _ _ _ (show 0 < 2 by omega),
+    v256half_muladd256_snd _ _ _ _ _ _ (show 1 < 2 by omega),
+    v256half_blockHalf _ _ _ (show 0 < 2 by omega), v256half_blockHalf _ _ _ (show 1 < 2 by omega)]
+
+theorem avx2Fftb_eq_ssse3 (mulf : Sym → Sym) (x y : Block) :
+    avx2Fftb mulf x y = ssse3Fftb mulf x y := by
+  unfold avx2Fftb ssse3Fftb
+  simp only [blockOfHalves_eq, v256half_xor _ _ _ (show 0 < 2 by omega),
+    v256half_xor _ _ _ (show 1 < 2 by omega),
+    v256half_muladd256_fst _ _ _ _ _ _ (show 0 < 2 by omega),
+    v256half_muladd256_fst _ _ _ _ _ _ (show 1 < 2 by omega),
+    v256half_muladd256_snd _ _ _ _ _ _ (show 0 < 2 by omega),
+    v256half_muladd256_snd _ _ _ _ _ _ (show 1 < 2 by omega),
+    v256half_blockHalf _ _ _ (show 0 < 2 by omega), v256half_blockHalf _ _ _ (show 1 < 2 by omega)]
+
+theorem avx2Ifftb_eq_ssse3 (mulf : Sym → Sym) (x y : Block) :
+    avx2Ifftb mulf x y = ssse3Ifftb mulf x y := by
+  unfold avx2Ifftb ssse3Ifftb
+  simp only [blockOfHalves_eq, v256half_xor _ _ _ (show 0 < 2 by omega),
+    v256half_xor _ _ _ (show 1 < 2 by omega),
+    v256half_muladd256_fst _ _ _ _ _ _ (show 0 < 2 by omega),
+    v256half_muladd256_fst _ _ _ _ _ _ (show 1 < 2 by omega),
+    v256half_muladd256_snd _ _ _ _ _ _ (show 0 < 2 by omega),
+    v256half_muladd256_snd _ _ _ _ _ _ (show 1 < 2 by omega),
+    v256half_blockHalf _ _ _ (show 0 < 2 by omega), v256half_blockHalf _ _ _ (show 1 < 2 by omega)]
+
+/-- T1 (Avx2) -/
+theorem avx2MulBlock_spec (mulf : Sym → Sym) (b : Block) :
+    avx2MulBlock mulf b = specMulBlock (mulNibble mulf) b := by
+  rw [avx2MulBlock_eq_ssse3, ssse3MulBlock_spec]
+
+theorem avx2MulAdd_spec (mulf : Sym → Sym) (x y : Block) :
+    avx2MulAdd mulf x y = blockXor x (specMulBlock (mulNibble mulf) y) := by
+  rw [avx2MulAdd_eq_ssse3, ssse3MulAdd_spec]
+
+/-- T4 (Avx2, fft) -/
+theorem avx2Fftb_spec (mulf : Sym → Sym) (x y : Block) :
+    avx2Fftb mulf x y =
+      (blockXor x (specMulBlock (mulNibble mulf) y),
+       blockXor y (blockXor x (specMulBlock (mulNibble mulf) y))) := by
+  rw [avx2Fftb_eq_ssse3, ssse3Fftb_spec]
+
+/-- T4 (Avx2, ifft) -/
+theorem avx2Ifftb_spec (mulf : Sym → Sym) (x y : Block) :
+    avx2Ifftb mulf x y =
+      (blockXor x (specMulBlock (mulNibble mulf) (blockXor y x)), blockXor y x) := by
+  rw [avx2Ifftb_eq_ssse3, ssse3Ifftb_spec]
+
+/-! ### NoSimd: the in-place loop `for i in 0..32` -/
+
+theorem vget_set (c : Block) (i : Nat) (x : Byte) (j : Nat) (hj : j < 64) :
+    (c.setIfInBounds i x).toArray.getD j 0#8 = if i = j then x else c.toArray.getD j 0#8 := by
+  rw [vget _ _ hj, vget _ _ hj, Vector.getElem_setIfInBounds]
+
+/-- `prod as u8` -/
+theorem setWidth8_lo (p : Sym) : p.setWidth 8 = BitVec.ofNat 8 (p.toNat % 256) := by
+  apply BitVec.eq_of_toNat_eq
+  rw [BitVec.toNat_setWidth, BitVec.toNat_ofNat]
+  omega
+
+/-- `(prod >> 8) as u8` -/
+theorem setWidth8_hi (p : Sym) : (p >>> 8).setWidth 8 = BitVec.ofNat 8 (p.toNat / 256) := by
+  apply BitVec.eq_of_toNat_eq
+  rw [BitVec.toNat_setWidth, BitVec.toNat_ofNat, BitVec.toNat_ushiftRight, Nat.shiftRight_eq_div_pow]
+
+/-- the four table lookups on the two bytes of a symbol are `mulNibble` of the symbol -/
+theorem nosimdProd_eq (mulf : Sym → Sym) (lo hi : Byte) :
+    nosimdProd mulf lo hi = mulNibble mulf (joinBytes lo hi) := by
+  have hlo := lo.isLt
+  have e1 : (joinBytes lo hi).toNat % 256 = lo.toNat := by rw [joinBytes_toNat]; omega
+  have e2 : (joinBytes lo hi).toNat / 256 = hi.toNat := by rw [joinBytes_toNat]; omega
+  unfold nosimdProd mulNibble
+  simp only [e1, e2]
+  rw [and_0f_toNat, and_0f_toNat, ushr4_toNat, ushr4_toNat]
+
+/-- invariant of a loop `for k in 0..n` (`n ≤ 32`) that in iteration `k` finalises the byte pair
+    `(k, k + 32)`: after `n` iterations the pairs `< n` hold their final value `new`, the others
+    are untouched -/
+theorem fold_range_inv (step : Block → Nat → Block) (b : Block) (new : Nat → Byte)
+    (hstep : ∀ (k : Nat) (c : Block), k < 32 →
+      (∀ j, j < 64 → c.toArray.getD j 0#8 = if j % 32 < k then new j else b.toArray.getD j 0#8) →
+      (∀ j, j < 64 → (step c k).toArray.getD j 0#8 =
+        if j % 32 < k + 1 then new j else b.toArray.getD j 0#8)) :
+    ∀ n, n ≤ 32 → ∀ j, j < 64 → ((List.range n).foldl step b).toArray.getD j 0#8 =
+      if j % 32 < n then new j else b.toArray.getD j 0#8 := by
+  intro n
+  induction n with
+  | zero =>
+    intro _ j _
+    simp only [List.range_zero, List.foldl_nil, Nat.not_lt_zero, if_false]
+  | succ n ih =>
+    intro hn j hj
+    rw [List.range_succ, List.foldl_append, List.foldl_cons, List.foldl_nil]
+    exact hstep n _ (by omega) (ih (by omega)) j hj
+
+theorem fold_range32 (step : Block → Nat → Block) (b target : Block)
+    (hstep : ∀ (k : Nat) (c : Block), k < 32 →
+      (∀ j, j < 64 → c.toArray.getD j 0#8 =
+        if j % 32 < k then target.toArray.getD j 0#8 else b.toArray.getD j 0#8) →
+      (∀ j, j < 64 → (step c k).toArray.getD j 0#8 =
+        if j % 32 < k + 1 then target.toArray.getD j 0#8 else b.toArray.getD j 0#8)) :
+    (List.range 32).foldl step b = target := by
+  apply vext
+  intro j hj
+  rw [fold_range_inv step b (fun j => target.toArray.getD j 0#8) hstep 32 (by omega) j hj,
+    if_pos (Nat.mod_lt _ (by decide))]
+
+/-- T1 (NoSimd) -/
+theorem nosimdMulBlock_spec (mulf : Sym → Sym) (b : Block) :
+    nosimdMulBlock mulf b = specMulBlock (mulNibble mulf) b := by
+  unfold nosimdMulBlock
+  apply fold_range32
+  intro k c hk hc j hj
+  have ck : c.toArray.getD k 0#8 = b.toArray.getD k 0#8 := by
+    rw [hc k (by omega), if_neg (by omega)]
+  have ck32 : c.toArray.getD (k + 32) 0#8 = b.toArray.getD (k + 32) 0#8 := by
+    rw [hc (k + 32) (by omega), if_neg (by omega)]
+  simp only []
+  rw [vget_set _ _ _ _ hj, vget_set _ _ _ _ hj, ck, ck32, nosimdProd_eq, setWidth8_hi, setWidth8_lo]
+  by_cases h1 : k + 32 = j
+  · subst h1
+    rw [if_pos rfl, if_pos (by omega)]
+    exact (specMulBlock_hi (mulNibble mulf) b ⟨k, hk⟩).symm
+  · rw [if_neg h1]
+    by_cases h2 : k = j
+    · subst h2
+      rw [if_pos rfl, if_pos (by omega)]
+      exact (specMulBlock_lo (mulNibble mulf) b ⟨k, hk⟩).symm
+    · rw [if_neg h2, hc j hj]
+      by_cases h3 : j % 32 < k
+      · rw [if_pos h3, if_pos (by omega)]
+      · rw [if_neg h3, if_neg (by omega)]
+
+/-- `NoSimd::mul_add` on one chunk pair: `x ^= y·m` -/
+theorem nosimdMulAdd_spec (mulf : Sym → Sym) (x y : Block) :
+    nosimdMulAdd mulf x y = blockXor x (specMulBlock (mulNibble mulf) y) := by
+  unfold nosimdMulAdd
+  apply fold_range32
+  intro k c hk hc j hj
+  have ck : c.toArray.getD k 0#8 = x.toArray.getD k 0#8 := by
+    rw [hc k (by omega), if_neg (by omega)]
+  have ck32 : c.toArray.getD (k + 32) 0#8 = x.toArray.getD (k + 32) 0#8 := by
+    rw [hc (k + 32) (by omega), if_neg (by omega)]
+  simp only []
+  have hne : ¬ k = k + 32 := by omega
+  rw [vget_set _ _ _ _ hj, vget_set _ _ _ _ hj, vget_set _ _ _ (k + 32) (by omega),
+    if_neg hne, ck, ck32, nosimdProd_eq, setWidth8_hi, setWidth8_lo]
+  by_cases h1 : k + 32 = j
+  · subst h1
+    rw [if_pos rfl, if_pos (by omega), blockXor_getD _ _ _ hj]
+    exact congrArg _ (specMulBlock_hi (mulNibble mulf) y ⟨k, hk⟩).symm
+  · rw [if_neg h1]
+    by_cases h2 : k = j
+    · subst h2
+      rw [if_pos rfl, if_pos (by omega), blockXor_getD _ _ _ hj]
+      exact congrArg _ (specMulBlock_lo (mulNibble mulf) y ⟨k, hk⟩).symm
+    · rw [if_neg h2, hc j hj]
+      by_cases h3 : j % 32 < k
+      · rw [if_pos h3, if_pos (by omega)]
+      · rw [if_neg h3, if_neg (by omega)]
+
+/-- T4 (NoSimd, fft): `mul_add(x, y); xor(y, x)` -/
+theorem nosimdFftb_spec (mulf : Sym → Sym) (x y : Block) :
+    nosimdFftb mulf x y =
+      (blockXor x (specMulBlock (mulNibble mulf) y),
+       blockXor y (blockXor x (specMulBlock (mulNibble mulf) y))) := by
+  unfold nosimdFftb
+  simp only [nosimdMulAdd_spec]
+
+/-- T4 (NoSimd, ifft): `xor(y, x); mul_add(x, y)` -/
+theorem nosimdIfftb_spec (mulf : Sym → Sym) (x y : Block) :
+    nosimdIfftb mulf x y =
+      (blockXor x (specMulBlock (mulNibble mulf) (blockXor y x)), blockXor y x) := by
+  unfold nosimdIfftb
+  simp only [nosimdMulAdd_spec]
+
+/-! ### T2: the four kernels agree, byte for byte, for any table contents -/
+
+theorem kernels_agree_block (mulf : Sym → Sym) (b : Block) :
+    ssse3MulBlock mulf b = nosimdMulBlock mulf b ∧ avx2MulBlock mulf b = nosimdMulBlock mulf b ∧
+    neonMulBlock mulf b = nosimdMulBlock mulf b := by
+  rw [ssse3MulBlock_spec, avx2MulBlock_spec, neonMulBlock_spec, nosimdMulBlock_spec]
+  exact ⟨rfl, rfl, rfl⟩
+
+theorem muladd_agree_block (mulf : Sym → Sym) (x y : Block) :
+    ssse3MulAdd mulf x y = nosimdMulAdd mulf x y ∧ avx2MulAdd mulf x y = nosimdMulAdd mulf x y ∧
+    neonMulAdd mulf x y = nosimdMulAdd mulf x y := by
+  rw [ssse3MulAdd_spec, avx2MulAdd_spec, neonMulAdd_spec, nosimdMulAdd_spec]
+  exact ⟨rfl, rfl, rfl⟩
+
+theorem fftb_agree_block (mulf : Sym → Sym) (x y : Block) :
+    ssse3Fftb mulf x y = nosimdFftb mulf x y ∧ avx2Fftb mulf x y = nosimdFftb mulf x y ∧
+    neonFftb mulf x y = nosimdFftb mulf x y := by
+  rw [ssse3Fftb_spec, avx2Fftb_spec, neonFftb_spec, nosimdFftb_spec]
+  exact ⟨rfl, rfl, rfl⟩
+
+theorem ifftb_agree_block (mulf : Sym → Sym) (x y : Block) :
+    ssse3Ifftb mulf x y = nosimdIfftb mulf x y ∧ avx2Ifftb mulf x y = nosimdIfftb mulf x y ∧
+    neonIfftb mulf x y = nosimdIfftb mulf x y := by
+  rw [ssse3Ifftb_spec, avx2Ifftb_spec, neonIfftb_spec, nosimdIfftb_spec]
+  exact ⟨rfl, rfl, rfl⟩
+
+/-! ### T3: tables filled from an XOR-additive map; the field instance -/
+
+theorem mulNibble_funext (mulf : Sym → Sym) (hadd : ∀ a b, mulf (a ^^^ b) = mulf a ^^^ mulf b) :
+    mulNibble mulf = mulf :=
+  funext (mulNibble_eq mulf hadd)
+
+theorem ssse3MulBlock_eq (mulf : Sym → Sym) (hadd : ∀ a b, mulf (a ^^^ b) = mulf a ^^^ mulf b)
+    (b : Block) : ssse3MulBlock mulf b = specMulBlock mulf b := by
+  rw [ssse3MulBlock_spec, mulNibble_funext mulf hadd]
+
+theorem avx2MulBlock_eq (mulf : Sym → Sym) (hadd : ∀ a b, mulf (a ^^^ b) = mulf a ^^^ mulf b)
+    (b : Block) : avx2MulBlock mulf b = specMulBlock mulf b := by
+  rw [avx2MulBlock_spec, mulNibble_funext mulf hadd]
+
+theorem neonMulBlock_eq (mulf : Sym → Sym) (hadd : ∀ a b, mulf (a ^^^ b) = mulf a ^^^ mulf b)
+    (b : Block) : neonMulBlock mulf b = specMulBlock mulf b := by
+  rw [neonMulBlock_spec, mulNibble_funext mulf hadd]
+
+theorem nosimdMulBlock_eq (mulf : Sym → Sym) (hadd : ∀ a b, mulf (a ^^^ b) = mulf a ^^^ mulf b)
+    (b : Block) : nosimdMulBlock mulf b = specMulBlock mulf b := by
+  rw [nosimdMulBlock_spec, mulNibble_funext mulf hadd]
+
+theorem gmul_gexp_add (m : Nat) (a b : Sym) :
+    (fun y => gmul (gexp m) y) (a ^^^ b) = (fun y => gmul (gexp m) y) a ^^^ (fun y => gmul (gexp m) y) b :=
+  gmul_xor_right (gexp m) a b
+
+/-- every engine's block multiply, with the tables of `log_m = m`, multiplies each of the 32 symbols
+    by `g^m` in the field (all multipliers, all blocks, all 32 symbols) -/
+theorem ssse3MulBlock_gmul (m : Nat) (b : Block) (i : Fin 32) :
+    blockSym (ssse3MulBlock (fun y => gmul (gexp m) y) b) i = gmul (gexp m) (blockSym b i) := by
+  rw [ssse3MulBlock_eq _ (gmul_gexp_add m), blockSym_specMulBlock]
+
+theorem avx2MulBlock_gmul (m : Nat) (b : Block) (i : Fin 32) :
+    blockSym (avx2MulBlock (fun y => gmul (gexp m) y) b) i = gmul (gexp m) (blockSym b i) := by
+  rw [avx2MulBlock_eq _ (gmul_gexp_add m), blockSym_specMulBlock]
+
+theorem neonMulBlock_gmul (m : Nat) (b : Block) (i : Fin 32) :
+    blockSym (neonMulBlock (fun y => gmul (gexp m) y) b) i = gmul (gexp m) (blockSym b i) := by
+  rw [neonMulBlock_eq _ (gmul_gexp_add m), blockSym_specMulBlock]
+
+theorem nosimdMulBlock_gmul (m : Nat) (b : Block) (i : Fin 32) :
+    blockSym (nosimdMulBlock (fun y => gmul (gexp m) y) b) i = gmul (gexp m) (blockSym b i) := by
+  rw [nosimdMulBlock_eq _ (gmul_gexp_add m), blockSym_specMulBlock]
+
+/-- the same against `Engine::mul` of the model (`mulLog`), as `mul128_mulLog` -/
+theorem ssse3MulBlock_mulLog (m : Nat) (b : Block) (i : Fin 32) :
+    blockSym (ssse3MulBlock (fun y => mulLog y m) b) i = mulLog (blockSym b i) m :=
+  ssse3MulBlock_gmul m b i
+
+theorem avx2MulBlock_mulLog (m : Nat) (b : Block) (i : Fin 32) :
+    blockSym (avx2MulBlock (fun y => mulLog y m) b) i = mulLog (blockSym b i) m :=
+  avx2MulBlock_gmul m b i
+
+theorem neonMulBlock_mulLog (m : Nat) (b : Block) (i : Fin 32) :
+    blockSym (neonMulBlock (fun y => mulLog y m) b) i = mulLog (blockSym b i) m :=
+  neonMulBlock_gmul m b i
+
+theorem nosimdMulBlock_mulLog (m : Nat) (b : Block) (i : Fin 32) :
+    blockSym (nosimdMulBlock (fun y => mulLog y m) b) i = mulLog (blockSym b i) m :=
+  nosimdMulBlock_gmul m b i
+
+/-! ### T4: the butterflies at symbol level -/
+
+/-- the forward butterfly of the specification on one block pair: `x' = x ^ f(y)`, `y' = y ^ x'` -/
+def specFftb (f : Sym → Sym) (x y : Block) : Block × Block :=
+  (blockXor x (specMulBlock f y), blockXor y (blockXor x (specMulBlock f y)))
+
+/-- the inverse butterfly of the specification: `y' = y ^ x`, `x' = x ^ f(y')` -/
+def specIfftb (f : Sym → Sym) (x y : Block) : Block × Block :=
+  (blockXor x (specMulBlock f (blockXor y x)), blockXor y x)
+
+theorem specFftb_sym (f : Sym → Sym) (x y : Block) (i : Fin 32) :
+    blockSym (specFftb f x y).1 i = blockSym x i ^^^ f (blockSym y i) ∧
+    blockSym (specFftb f x y).2 i = blockSym y i ^^^ (blockSym x i ^^^ f (blockSym y i)) := by
+  unfold specFftb
+  constructor
+  · rw [blockSym_blockXor, blockSym_specMulBlock]
+  · rw [blockSym_blockXor, blockSym_blockXor, blockSym_specMulBlock]
+
+theorem specIfftb_sym (f : Sym → Sym) (x y : Block) (i : Fin 32) :
+    blockSym (specIfftb f x y).1 i = blockSym x i ^^^ f (blockSym y i ^^^ blockSym x i) ∧
+    blockSym (specIfftb f x y).2 i = blockSym y i ^^^ blockSym x i := by
+  unfold specIfftb
+  constructor
+  · rw [blockSym_blockXor, blockSym_specMulBlock, blockSym_blockXor]
+  · rw [blockSym_blockXor]
+
+theorem ssse3Fftb_sym (mulf : Sym → Sym) (x y : Block) (i : Fin 32) :
+    blockSym (ssse3Fftb mulf x y).1 i = blockSym x i ^^^ mulNibble mulf (blockSym y i) ∧
+    blockSym (ssse3Fftb mulf x y).2 i =
+      blockSym y i ^^^ (blockSym x i ^^^ mulNibble mulf (blockSym y i)) := by
+  rw [ssse3Fftb_spec]; exact specFftb_sym (mulNibble mulf) x y i
+
+theorem avx2Fftb_sym (mulf : Sym → Sym) (x y : Block) (i : Fin 32) :
+    blockSym (avx2Fftb mulf x y).1 i = blockSym x i ^^^ mulNibble mulf (blockSym y i) ∧
+    blockSym (avx2Fftb mulf x y).2 i =
+      blockSym y i ^^^ (blockSym x i ^^^ mulNibble mulf (blockSym y i)) := by
+  rw [avx2Fftb_spec]; exact specFftb_sym (mulNibble mulf) x y i
+
+theorem neonFftb_sym (mulf : Sym → Sym) (x y : Block) (i : Fin 32) :
+    blockSym (neonFftb mulf x y).1 i = blockSym x i ^^^ mulNibble mulf (blockSym y i) ∧
+    blockSym (neonFftb mulf x y).2 i =
+      blockSym y i ^^^ (blockSym x i ^^^ mulNibble mulf (blockSym y i)) := by
+  rw [neonFftb_spec]; exact specFftb_sym (mulNibble mulf) x y i
+
+theorem nosimdFftb_sym (mulf : Sym → Sym) (x y : Block) (i : Fin 32) :
+    blockSym (nosimdFftb mulf x y).1 i = blockSym x i ^^^ mulNibble mulf (blockSym y i) ∧
+    blockSym (nosimdFftb mulf x y).2 i =
+      blockSym y i ^^^ (blockSym x i ^^^ mulNibble mulf (blockSym y i)) := by
+  rw [nosimdFftb_spec]; exact specFftb_sym (mulNibble mulf) x y i
+
+theorem ssse3Ifftb_sym (mulf : Sym → Sym) (x y : Block) (i : Fin 32) :
+    blockSym (ssse3Ifftb mulf x y).1 i =
+      blockSym x i ^^^ mulNibble mulf (blockSym y i ^^^ blockSym x i) ∧
+    blockSym (ssse3Ifftb mulf x y).2 i = blockSym y i ^^^ blockSym x i := by
+  rw [ssse3Ifftb_spec]; exact specIfftb_sym (mulNibble mulf) x y i
+
+theorem avx2Ifftb_sym (mulf : Sym → Sym) (x y : Block) (i : Fin 32) :
+    blockSym (avx2Ifftb mulf x y).1 i =
+      blockSym x i ^^^ mulNibble mulf (blockSym y i ^^^ blockSym x i) ∧
+    blockSym (avx2Ifftb mulf x y).2 i = blockSym y i ^^^ blockSym x i := by
+  rw [avx2Ifftb_spec]; exact specIfftb_sym (mulNibble mulf) x y i
+
+theorem neonIfftb_sym (mulf : Sym → Sym) (x y : Block) (i : Fin 32) :
+    blockSym (neonIfftb mulf x y).1 i =
+      blockSym x i ^^^ mulNibble mulf (blockSym y i ^^^ blockSym x i) ∧
+    blockSym (neonIfftb mulf x y).2 i = blockSym y i ^^^ blockSym x i := by
+  rw [neonIfftb_spec]; exact specIfftb_sym (mulNibble mulf) x y i
+
+theorem nosimdIfftb_sym (mulf : Sym → Sym) (x y : Block) (i : Fin 32) :
+    blockSym (nosimdIfftb mulf x y).1 i =
+      blockSym x i ^^^ mulNibble mulf (blockSym y i ^^^ blockSym x i) ∧
+    blockSym (nosimdIfftb mulf x y).2 i = blockSym y i ^^^ blockSym x i := by
+  rw [nosimdIfftb_spec]; exact specIfftb_sym (mulNibble mulf) x y i
+
+/-- the field instance of the butterflies (tables of `log_m = m`), for all four engines at once:
+    `x' = x ⊕ g^m ⊗ y`, `y' = y ⊕ x'` and `y' = y ⊕ x`, `x' = x ⊕ g^m ⊗ y'` in every symbol -/
+theorem butterflies_gmul (m : Nat) (x y : Block) (i : Fin 32)
+    (fft : Block × Block) (ifft : Block × Block)
+    (hfft : fft = ssse3Fftb (fun y => gmul (gexp m) y) x y ∨ fft = avx2Fftb (fun y => gmul (gexp m) y) x y ∨
+      fft = neonFftb (fun y => gmul (gexp m) y) x y ∨ fft = nosimdFftb (fun y => gmul (gexp m) y) x y)
+    (hifft : ifft = ssse3Ifftb (fun y => gmul (gexp m) y) x y ∨ ifft = avx2Ifftb (fun y => gmul (gexp m) y) x y ∨
+      ifft = neonIfftb (fun y => gmul (gexp m) y) x y ∨ ifft = nosimdIfftb (fun y => gmul (gexp m) y) x y) :
+    (blockSym fft.1 i = blockSym x i ^^^ gmul (gexp m) (blockSym y i) ∧
+     blockSym fft.2 i = blockSym y i ^^^ (blockSym x i ^^^ gmul (gexp m) (blockSym y i))) ∧
+    (blockSym ifft.1 i = blockSym x i ^^^ gmul (gexp m) (blockSym y i ^^^ blockSym x i) ∧
+     blockSym ifft.2 i = blockSym y i ^^^ blockSym x i) := by
+  have hn := mulNibble_funext _ (gmul_gexp_add m)
+  have e1 : fft = specFftb (fun y => gmul (gexp m) y) x y := by
+    rcases hfft with h | h | h | h
+    · rw [h, ssse3Fftb_spec, hn]; rfl
+    · rw [h, avx2Fftb_spec, hn]; rfl
+    · rw [h, neonFftb_spec, hn]; rfl
+    · rw [h, nosimdFftb_spec, hn]; rfl
+  have e2 : ifft = specIfftb (fun y => gmul (gexp m) y) x y := by
+    rcases hifft with h | h | h | h
+    · rw [h, ssse3Ifftb_spec, hn]; rfl
+    · rw [h, avx2Ifftb_spec, hn]; rfl
+    · rw [h, neonIfftb_spec, hn]; rfl
+    · rw [h, nosimdIfftb_spec, hn]; rfl
+  rw [e1, e2]
+  exact ⟨specFftb_sym _ x y i, specIfftb_sym _ x y i⟩
+
+/-! ### T5: the block spec is the per-block operation of `bMul` / `bXor` / `bLane` (Model/Blocks.lean) -/
+
+theorem shard_getD_irrel (s : BShard) (q : Nat) (hq : q < s.size) (d d' : Block) :
+    s.getD q d = s.getD q d' := by
+  rw [Array.getD_eq_getD_getElem?, Array.getD_eq_getD_getElem?, Array.getElem?_eq_getElem hq]
+  rfl
+
+/-- block `q` of `bMul f s` is `specMulBlock f` of block `q` of `s` -/
+theorem specMulBlock_bMul (f : Sym → Sym) (s : BShard) (q : Nat) (hq : q < s.size) (d : Block) :
+    (bMul f s).getD q d = specMulBlock f (s.getD q d) := by
+  unfold bMul
+  rw [ofFn_getD _ _ hq, shard_getD_irrel s q hq d (Vector.replicate 64 0#8)]
+  rfl
+
+/-- block `q` of `bXor x y` is `blockXor` of the blocks `q` -/
+theorem blockXor_bXor (x y : BShard) (q : Nat) (hq : q < x.size) (hq' : q < y.size) (d : Block) :
+    (bXor x y).getD q d = blockXor (x.getD q d) (y.getD q d) := by
+  unfold bXor
+  rw [ofFn_getD _ _ hq, shard_getD_irrel x q hq d (Vector.replicate 64 0#8),
+    shard_getD_irrel y q hq' d (Vector.replicate 64 0#8)]
+  rfl
+
+/-- lane `l` of a shard is symbol `l % 32` of block `l / 32` -/
+theorem bLane_blockSym (s : BShard) (l : Nat) :
+    bLane s l = blockSym (s.getD (l / 32) (Vector.replicate 64 0#8)) ⟨l % 32, Nat.mod_lt _ (by decide)⟩ :=
+  rfl
+
+/-- lane level: running any engine's block kernel on every block is `bMul (mulNibble mulf)`, i.e.
+    block `q` of `bMul (mulNibble mulf) s` is what each of the four kernels writes -/
+theorem bMul_block_engines (mulf : Sym → Sym) (s : BShard) (q : Nat) (hq : q < s.size) (d : Block) :
+    (bMul (mulNibble mulf) s).getD q d = nosimdMulBlock mulf (s.getD q d) ∧
+    (bMul (mulNibble mulf) s).getD q d = ssse3MulBlock mulf (s.getD q d) ∧
+    (bMul (mulNibble mulf) s).getD q d = avx2MulBlock mulf (s.getD q d) ∧
+    (bMul (mulNibble mulf) s).getD q d = neonMulBlock mulf (s.getD q d) := by
+  rw [specMulBlock_bMul _ _ _ hq, nosimdMulBlock_spec, ssse3MulBlock_spec, avx2MulBlock_spec,
+    neonMulBlock_spec]
+  exact ⟨rfl, rfl, rfl, rfl⟩
+
+/-- lane `l` of a shard whose blocks went through `specMulBlock f` -/
+theorem bLane_specMulBlock (f : Sym → Sym) (s : BShard) (l : Nat) :
+    blockSym (specMulBlock f (s.getD (l / 32) (Vector.replicate 64 0#8))) ⟨l % 32, Nat.mod_lt _ (by decide)⟩
+      = f (bLane s l) := by
+  rw [blockSym_specMulBlock, ← bLane_blockSym]
+
 end RS
+
+#print axioms RS.ssse3MulBlock_spec
+#print axioms RS.avx2MulBlock_spec
+#print axioms RS.neonMulBlock_spec
+#print axioms RS.nosimdMulBlock_spec
+#print axioms RS.kernels_agree_block
+#print axioms RS.muladd_agree_block
+#print axioms RS.fftb_agree_block
+#print axioms RS.ifftb_agree_block
+#print axioms RS.ssse3MulBlock_eq
+#print axioms RS.avx2MulBlock_eq
+#print axioms RS.neonMulBlock_eq
+#print axioms RS.nosimdMulBlock_eq
+#print axioms RS.ssse3MulBlock_gmul
+#print axioms RS.avx2MulBlock_gmul
+#print axioms RS.neonMulBlock_gmul
+#print axioms RS.nosimdMulBlock_gmul
+#print axioms RS.ssse3MulBlock_mulLog
+#print axioms RS.avx2MulBlock_mulLog
+#print axioms RS.neonMulBlock_mulLog
+#print axioms RS.nosimdMulBlock_mulLog
+#print axioms RS.ssse3Fftb_spec
+#print axioms RS.avx2Fftb_spec
+#print axioms RS.neonFftb_spec
+#print axioms RS.nosimdFftb_spec
+#print axioms RS.ssse3Ifftb_spec
+#print axioms RS.avx2Ifftb_spec
+#print axioms RS.neonIfftb_spec
+#print axioms RS.nosimdIfftb_spec
+#print axioms RS.ssse3Fftb_sym
+#print axioms RS.avx2Fftb_sym
+#print axioms RS.neonFftb_sym
+#print axioms RS.nosimdFftb_sym
+#print axioms RS.ssse3Ifftb_sym
+#print axioms RS.avx2Ifftb_sym
+#print axioms RS.neonIfftb_sym
+#print axioms RS.nosimdIfftb_sym
+#print axioms RS.butterflies_gmul
+#print axioms RS.specMulBlock_bMul
+#print axioms RS.blockXor_bXor
+#print axioms RS.bMul_block_engines
+#print axioms RS.bLane_specMulBlock
